@@ -54,8 +54,9 @@ func goid() int64 {
 var errAccept = errors.New("injected accepter failure")
 
 type accItem struct {
-	ch  channel.Channel
-	err error
+	ch      channel.Channel
+	err     error
+	thenErr error // the accepter fails with this on the very next call, without waiting for the scenario
 }
 type accepter struct {
 	r           *runner
@@ -63,6 +64,7 @@ type accepter struct {
 	net         server.Accepter // server.NetAccepter over a fakeListener (scenarios with cancelCloses)
 	injected    atomic.Bool
 	cancelAfter atomic.Bool
+	pendErr     atomic.Pointer[error]
 }
 
 // fakeListener is a net.Listener over the scenario's connection queue, for the real server.NetAccepter: Accept hands out
@@ -115,8 +117,13 @@ func (a *accepter) Accept(ctx context.Context) (channel.Channel, error) {
 			return nil, err
 		}
 		it = accItem{ch: ch}
+	} else if pe := a.pendErr.Swap(nil); pe != nil {
+		it = accItem{err: *pe}
 	} else {
 		it = <-a.in
+	}
+	if it.thenErr != nil {
+		a.pendErr.Store(&it.thenErr)
 	}
 	if it.err != nil {
 		kind := "other"
@@ -250,7 +257,13 @@ func (r *runner) doStep(st Step) {
 		if st.Kind == "cancelafter" { // the context ends after this connection has been handed over, before Loop asks for the next one
 			r.acc.cancelAfter.Store(true)
 		}
-		r.acc.in <- accItem{ch: ch}
+		it := accItem{ch: ch}
+		if st.Kind == "thenfail" { // the listener fails right behind this connection: Loop learns of it before the connection's goroutine has run
+			it.thenErr = errAccept
+		} else if st.Kind == "thenclosing" {
+			it.thenErr = fmt.Errorf("listener: %w", channel.ErrClosed)
+		}
+		r.acc.in <- it
 	case "acceptfail":
 		if st.Kind == "closing" {
 			r.acc.in <- accItem{err: fmt.Errorf("listener: %w", channel.ErrClosed)}
